@@ -332,9 +332,19 @@ package actor
 // parent; failures(c) counts its calls. The behaviour is user code: it may return or panic (maypanic), it does
 // not change the core's state word, envelope or reference.
 //@ ghost failures(ptr)
+// failed(): the failing actor pauses its OWN mailbox (until the decision arrives) and reports the failure to its
+// parent exactly once, as a system message carrying a new supervision context; nobody else is told anything.
+// (failures(c)++ is the ghost statement at its entry.)
 //@ func (*Context).failed
-//@   trusted
 //@   ghostinc failures(c)
+//@   requires ctxwf(c)
+//@   modifies gmap(failures), gmap(pauses), gmap(told), gmap(toldn), gmap(tells), gmap(published)
+//@   ensures  gcount(failures, c) == old(gcount(failures, c)) + 1 && forall d *Context :: d != c ==> gcount(failures, d) == old(gcount(failures, d))
+//@   ensures  gcount(pauses, c.mailbox) == old(gcount(pauses, c.mailbox)) + 1
+//@   ensures  gcount(told, iface(c.parent), kSupervise()) == old(gcount(told, iface(c.parent), kSupervise())) + 1
+//@   ensures  forall r vivid.ActorRef, k mathint :: (r != iface(c.parent) || k != kSupervise()) ==> gcount(told, r, k) == old(gcount(told, r, k))
+//@   ensures  gcount(toldn, kSupervise()) == old(gcount(toldn, kSupervise())) + 1 && forall k mathint :: k != kSupervise() ==> gcount(toldn, k) == old(gcount(toldn, k))
+//@   ensures  gcount(published, tagof("ves.ActorFailedEvent")) == old(gcount(published, tagof("ves.ActorFailedEvent"))) + 1
 // a death notice names the actor that died
 //@ pure killedMsgOK(c *Context) bool = typeis(envMessage(c.envelop), "*vivid.OnKilled") ==>
 //@     !nilptr(envMessage(c.envelop)) && unboxed(envMessage(c.envelop), "*vivid.OnKilled").Ref != nil &&
@@ -342,7 +352,11 @@ package actor
 //@ func (*Context).executeBehaviorWithRecovery
 //@   funcspec behavior maypanic preserves ctxwf(c), killedMsgOK(c), watchersOK(c), schedok(c), zombieNoJobs(c), released1(c), c.state, c.envelop, c.ref, c.zombie, c.restarting, c.children, c.watchers, c.parent, c.system, c.mailbox, c.scheduler
 //@   requires ctxwf(c) && c.envelop != nil && behavior != nil && killedMsgOK(c)
-//@   modifies anyold, gmap(failures), ghost(calls_behavior)
+//@   modifies anyold, gmap(failures), gmap(pauses), gmap(told), gmap(toldn), gmap(tells), gmap(published), ghost(calls_behavior)
+// what a failure that does reach supervision amounts to: ONE report (failed()'s contract), none otherwise
+//@   ensures  gcount(toldn, kSupervise()) - old(gcount(toldn, kSupervise())) == gcount(failures, c) - old(gcount(failures, c))
+//@   ensures  forall k mathint :: k != kSupervise() ==> gcount(toldn, k) == old(gcount(toldn, k))
+//@   ensures  forall r vivid.ActorRef, k mathint :: k != kSupervise() ==> gcount(told, r, k) == old(gcount(told, r, k))
 //@   ensures  c.state == old(c.state) && c.envelop == old(c.envelop) && c.ref == old(c.ref) && ctxwf(c)
 //@   ensures  c.zombie == old(c.zombie) && c.restarting == old(c.restarting) && c.children == old(c.children) && c.watchers == old(c.watchers) && c.parent == old(c.parent) && c.system == old(c.system)
 //@   ensures  killedMsgOK(c) && (old(watchersOK(c)) ==> watchersOK(c)) && (old(schedok(c)) ==> schedok(c)) && (old(schedok(c) && zombieNoJobs(c)) ==> zombieNoJobs(c)) && (old(released1(c)) ==> released1(c))
@@ -376,7 +390,7 @@ package actor
 //@   requires watchersOK(c) && schedok(c) && zombieNoJobs(c) && released1(c) && killedMsgOK(c)
 //@   requires c.system.futureAgents != nil && !held(c.system.futureLock) && regfut(c.system)
 //@   requires forall p string :: p in c.children ==> c.children[p] != nil && (typeis(c.children[p], "*actor.Ref") ==> !nilptr(c.children[p]))
-//@   modifies c.children[*], c.state, c.envelop, c.actor, c.behaviorStack.behaviors, c.zombie, c.restarting, c.scheduler.jobKeys[*], anyold, gmap(told), gmap(toldn), gmap(tells), gmap(unregistered), gmap(unsuball), gmap(published), gmap(resumes), gmap(deleted), gmap(schedtried), gmap(scheduled), gmap(chclosed), gmap(piped), gmap(pipedn), gmap(failures), ghost(calls_closer), ghost(calls_behavior)
+//@   modifies c.children[*], c.state, c.envelop, c.actor, c.behaviorStack.behaviors, c.zombie, c.restarting, c.scheduler.jobKeys[*], anyold, gmap(told), gmap(toldn), gmap(tells), gmap(unregistered), gmap(unsuball), gmap(published), gmap(resumes), gmap(deleted), gmap(schedtried), gmap(scheduled), gmap(chclosed), gmap(piped), gmap(pipedn), gmap(failures), gmap(pauses), ghost(calls_closer), ghost(calls_behavior)
 //@   ensures  rfc == 1
 //@   ensures  gcount(toldn, kKill(!old(message.Poison))) == old(gcount(toldn, kKill(!message.Poison))) + old(len(c.children))
 //@   ensures  forall p string :: old(p in c.children) ==> gcount(told, old(c.children[p]), kKill(!old(message.Poison))) > old(gcount(told, c.children[p], kKill(!message.Poison)))
@@ -545,7 +559,7 @@ package actor
 //@ func (*Context).onScheduler
 //@   callspec executeBehaviorWithRecovery requires envMessage(c.envelop) == message.Message
 //@   requires ctxwf(c) && c.envelop != nil && message != nil && behavior != nil && !typeis(message.Message, "*vivid.OnKilled")
-//@   modifies anyold, c.envelop, gmap(failures), ghost(calls_behavior)
+//@   modifies anyold, c.envelop, gmap(failures), gmap(pauses), gmap(told), gmap(toldn), gmap(tells), gmap(published), ghost(calls_behavior)
 //@   ensures  ghost(calls_behavior) == old(ghost(calls_behavior)) + 1
 //@ pure isCoreMessage(m any) bool =
 //@     typeis(m, "*vivid.OnLaunch") || typeis(m, "*vivid.OnKill") || typeis(m, "*vivid.OnKilled") || typeis(m, "*actor.supervisionContext") ||
